@@ -320,7 +320,7 @@ Lemma step_res c t q : t_pc (c_pool c t) = PRes q ->
 Proof. intros H1. unfold step. rewrite H1. destruct (e_kind e); try reflexivity. discriminate Hk. Qed.
 
 Lemma wadd_nowrap a b : a + b < W -> wadd a b = a + b.
-Proof. intros H. unfold wadd. apply N.mod_small. exact H. Qed.
+Proof using. intros H. unfold wadd. apply N.mod_small. exact H. Qed.
 
 (** ** the gap-free prefix and the ledger across a step *)
 
@@ -1557,7 +1557,7 @@ Qed.
 (** ** the labels of a run: the no-wrap hypothesis of a run implies that of each of its steps *)
 
 Lemma finish_labels c t sh ts l q pr : c_labels (finish e c t sh ts l q pr) = l :: c_labels c.
-Proof. unfold finish. destruct (deliver e ts q pr) as [ts' o]. reflexivity. Qed.
+Proof using. unfold finish. destruct (deliver e ts q pr) as [ts' o]. reflexivity. Qed.
 
 Lemma step_labels c t :
   KInv c -> nowrap (c_labels (step e c t)) -> nowrap (c_labels c) /\ step_nowrap c t.
@@ -1585,7 +1585,8 @@ Qed.
 
 (** labels only grow, whatever the state *)
 Lemma step_labels_suffix c t : nowrap (c_labels (step e c t)) -> nowrap (c_labels c).
-Proof.
+Proof using.
+  clear Hk Hown He.
   assert (forall c' l evs sh ts, nowrap (c_labels (commit c' t sh ts l evs)) -> nowrap (c_labels c')) as Hcm.
   { intros c' l evs sh ts H. cbn [commit c_labels] in H. inversion H; assumption. }
   assert (forall c' sh ts l q pr, nowrap (c_labels (finish e c' t sh ts l q pr)) -> nowrap (c_labels c')) as Hfin.
@@ -1710,7 +1711,7 @@ Proof.
 Qed.
 
 Lemma exec_snoc c sched t : exec e c (sched ++ [t]) = step e (exec e c sched) t.
-Proof. unfold exec. rewrite fold_left_app. reflexivity. Qed.
+Proof using. unfold exec. rewrite fold_left_app. reflexivity. Qed.
 
 Theorem kinv_exec progs sched :
   (forall t, Forall wf_op (progs t)) ->
